@@ -814,8 +814,9 @@ func (f *Frame) specCall(n SCall, env *specEnv) Val {
 		}
 		e.n++
 		k := fmt.Sprintf("k!be%d", e.n)
-		return Val{T: fmt.Sprintf("(and (= %s %s) (forall ((%s Int)) (! (=> (and (<= 0 %s) (< %s %s)) (= (select %s (+ %s %s)) (select %s (+ %s %s)))) :pattern ((select %s (+ %s %s))))))",
-			av.ln, bv.ln, k, k, k, av.ln, av.arr, av.off, k, bv.arr, bv.off, k, av.arr, av.off, k), Typ: boolT}
+		// absolute index over the first slice (bare select as trigger), as in the model of bytes.Compare
+		return Val{T: fmt.Sprintf("(and (= %s %s) (forall ((%s Int)) (! (=> (and (<= %s %s) (< %s (+ %s %s))) (= (select %s %s) (select %s (+ (- %s %s) %s)))) :pattern ((select %s %s)))))",
+			av.ln, bv.ln, k, av.off, k, k, av.off, av.ln, av.arr, k, bv.arr, k, av.off, bv.off, av.arr, k), Typ: boolT}
 	case "int", "uint64", "uint32", "uint8", "uint16", "int64", "byte":
 		// conversion in specs: mathematical identity
 		return f.specTerm(n.Args[0], env)
